@@ -1560,7 +1560,9 @@ BACKENDS = ['numpy', 'dask']
 H, W = 6, 7
 
 RULE = ('every public raster function (registry below = RASTER_FUNCS) x backend {numpy, dask} x dtype {int8..uint64, float32, '
-        'float64} x memory layout {C, F, non-contiguous view of a larger array, read-only} x parameter variants (passes=0, '
+        'float64} x memory layout {C, F, non-contiguous view of a larger array, read-only} x attrs {with res, without res, empty} x '
+        'dimension names {y/x, lat/lon with x=/y= given} x name= {default, given} x multi-raster dtypes/layouts {same, mixed}; every '
+        'input carries scalar, 1-D non-index and 2-D auxiliary coordinates and nested mutable attrs; parameter variants (passes=0, '
         'max_distance, k, kernels): deep snapshot (bytes of the whole base buffer, dtype, dims, every coordinate incl. scalar '
         'ones, deep-copied attrs, name, non-raster arguments) before/after the call, np.shares_memory(output, every input '
         'buffer), write-to-output probe, output identity (shape, dims, coords, attrs, backend), compared with the property text '
@@ -1593,8 +1595,12 @@ PARTIAL = [
     'through two subscripts are treated as array writes',
     'no obligation (verdict recorded only) for the public functions that are not raster-in/raster-out: ' + ', '.join(sorted(NON_RASTER_FUNCS)) +
     '; esri.py, gpu_rtx/ and datasets/ are not translated',
-    'dynamic observation: natural_breaks, a_star_search, viewshed, regions, trim, crop, polygonize, zonal.apply, local.*, canvas_like '
-    'only on the NumPy backend (no Dask implementation)',
+    'dynamic observation: functions whose unchanged code rejects an input class (Dask input for natural_breaks, a_star_search, '
+    'viewshed, regions, trim, crop, polygonize; lat/lon dimension names for viewshed, true_color, canvas_like; integer templates '
+    'for generate_terrain; float data for local.rank) raise; such calls are counted as errors, never flagged, and their inputs '
+    'are still compared with the snapshot',
+    'attrs containers: xarray copies the attrs dict shallowly, so nested mutable attr VALUES (lists, dicts) and coordinate '
+    'variables are shared between input and output objects of every wrapper; the write probe targets array memory only',
 ]
 LEVEL_TEXT = ('Proved for all programs, all traces (any order/repetition of the program\'s instructions, i.e. all control flow), all '
               'heaps and all protected location sets: the boolean checker is sound (C10_writes_nothing_sound, '
@@ -1816,7 +1822,9 @@ def _registry():
                                    extra=lambda r, v: {'target_values': [[1], [2, 3]][v], 'max_distance': [np.inf, 4.0][v]}, variants=2),
         'pathfinding.a_star_search': one('pathfinding', 'a_star_search', raster='surface',
                                          # variant 2: every cell is a barrier, so the start is non crossable and not snapped
-                                         extra=lambda r, v: {'start': (10.0, 0.0), 'goal': (0.0, 12.0),
+                                         # start / goal given as tuple, list and ndarray (the mutable ones are snapshotted)
+                                         extra=lambda r, v: {'start': [(10.0, 0.0), [10.0, 0.0], np.array([10.0, 0.0])][v],
+                                                             'goal': [(0.0, 12.0), [0.0, 12.0], np.array([0.0, 12.0])][v],
                                                              'barriers': [[], [0], [0, 1, 2, 3, 4, 5]][v],
                                                              'snap_start': v == 1, 'snap_goal': v == 1}, variants=3, backends=['numpy']),
         'perlin.perlin': one('perlin', 'perlin', extra=lambda r, v: {'seed': 3 + v}, variants=2, out='own'),
@@ -1830,6 +1838,11 @@ def _registry():
                           backends=['numpy'], out='window'),
         'experimental.polygonize.polygonize': one('experimental.polygonize', 'polygonize', raster='raster',
                                                   extra=lambda r, v: {'connectivity': [4, 8][v]}, variants=2, backends=['numpy'], out='own'),
+        # polygonize with its optional mask raster and affine transform array
+        'experimental.polygonize.polygonize#mask': multi('experimental.polygonize', 'polygonize', [('raster', 'data'), ('mask', 'zones')],
+                                                         extra=lambda r, v: {'connectivity': [4, 8][v],
+                                                                             'transform': np.array([2.0, 0.0, 10.0, 0.0, -2.0, 20.0])},
+                                                         variants=2, out='own'),
         'multispectral.true_color': multi('multispectral', 'true_color', [('r', 'data'), ('g', 'data'), ('b', 'data')], out='own'),
         'zonal.stats': multi('zonal', 'stats', [('zones', 'zones'), ('values', 'data')],
                              extra=lambda r, v: {'stats_funcs': ['mean', 'max', 'sum', 'count'][:2 + v]} if v < 2 else
@@ -1862,9 +1875,16 @@ def _registry():
         reg['local.' + fn] = dict(mod='local', fn=fn, rasters=[('a', 'data'), ('b', 'data'), ('c', 'data')], dataset=True,
                                   extra=(lambda r, v, ref=ref: ({'ref_var': 'a'} if ref else {})), variants=1,
                                   backends=['numpy'], out='own')
-    for ent in reg.values():
+    for k, ent in reg.items():
         ent['backends'] = BACKENDS        # a backend a function does not implement is an ordinary, classified error
+        ent['dask_ok'] = k not in NO_DASK
     return reg
+
+
+# functions whose UNCHANGED code rejects Dask-backed input (NotImplementedError / TypeError / Numba typing error):
+# still run on Dask (the inputs must be intact after the exception) but only once per function in the quick tier
+NO_DASK = {'experimental.polygonize.polygonize#mask', 'classify.natural_breaks', 'pathfinding.a_star_search', 'viewshed.viewshed', 'zonal.regions', 'zonal.trim',
+           'zonal.crop', 'experimental.polygonize.polygonize'}
 
 
 def _plus_one(x):
@@ -1975,7 +1995,7 @@ def _observe(case):
             if tuple(res.dims) != snaps[first]['dims'] and tuple(res.dims) != snaps[ent['rasters'][-1][0]]['dims']:
                 ident.append('dims')
         obs['identity'] = ident
-    elif isinstance(res, tuple) and case['fn'].endswith('polygonize'):
+    elif isinstance(res, tuple) and case['fn'].split('#')[0].endswith('polygonize'):
         obs['out_kind'] = 'polygons'
         for ring_list in res[1]:
             for ring in ring_list:
@@ -2095,6 +2115,8 @@ def gen_cases(ctx, only=None, full=False):
             los = LAYOUTS + [LAYOUTS[(off + fi) % 4]]
             for i in range(5):
                 be = ent['backends'][(i + off) % len(ent['backends'])]
+                if not ent.get('dask_ok', True):
+                    be = 'dask' if i == 0 else 'numpy'
                 combos.append((be, dts[i], los[i]))
         aoff = rng.randrange(3)
         for i, (be, dt, lo) in enumerate(combos):
